@@ -7,26 +7,27 @@ from vlib.common import Broken
 def run(ctx):
     ctx.level = "model_checking"
     steps = 5 if ctx.quick() else 6
-    r, summary, mism, samples = sf.run_scripts(ctx, steps)
+    r, summary, mism, samples = sf.run_scripts(ctx, steps, lz4=True)
     for m in mism:
         if m["sig"] == "harness":
             raise Broken("harness: " + m["detail"])
         if not m["sig"].startswith(sf.HANDLER_SIGS) or "request" in m.get("script", "")[:40] and "noversion" in m.get("script", ""):
             ctx.violation(m["sig"], "%s | script: %s (step %d)" % (m["detail"], m.get("script"), m.get("step", -1)), m)
     ctx.coverage = {
-        "states": r.distinct, "transitions": r.generated, "traces_validated_against_impl": summary["scripts"],
+        "states": r.distinct, "transitions": r.generated, "traces_validated_against_impl": summary["scripts"] + summary.get("scripts_lz4", 0),
+        "scripts_over_lz4": summary.get("scripts_lz4", 0),
         "samples": samples, "peer_steps": summary["steps"],
         "invariants": ["HandlerOnlyIfNegotiated", "HandlerExactlyOnce", "CtxCancelledIffEnded", "DeadMeansNoLive"],
         "exhaustive": True,
         "explanation": "every peer script of the step bound over {right/wrong protocol line; connect request ok / unknown compression / "
                        "no supported version / another message first / garbage; open, open+close batch, close, data, window on two ids; "
-                       "unknown code, nested batch, garbage frame, structurally invalid message, a catalogue of values whose table entry ends anywhere from 0 to past the end of the value (small and big messages, lists; sent as a frame and as the connect request), truncated frame + EOF, 64 MiB declared "
+                       "unknown code, nested batch, garbage frame, structurally invalid message, a catalogue of values whose table entry ends anywhere from 0 to past the end of the value (small and big messages, lists; sent as a frame and as the connect request), every script also with lz4 negotiated (the frames of the script go through the lz4 stream); truncated frame + EOF, 64 MiB declared "
                        "length + EOF, EOF, second connect request}: after every step the bytes the server wrote, connection open "
                        "(barrier round trip) or closed (EOF observed), handler starts and context cancellations must equal the model; "
                        "after every script a real client on its own connection does an echo round trip; the server process must "
                        "have logged no panic",
     }
-    ctx.assumptions = ["oversized frames are declared as 64 MiB, not 4 GiB", "lz4-negotiated connections are exercised under C03/C09, not by the raw peer"]
+    ctx.assumptions = ["oversized frames are declared as 64 MiB, not 4 GiB", "the peer speaks lz4 only after a well-formed acceptance; corrupting the lz4 framing itself is not scripted"]
 
 
 def replay(ctx, path):
